@@ -30,12 +30,14 @@ def main():
     n_open = n_rep = 0
     for d in sorted(glob.glob(os.path.join(VERIF, "hunt", "C*"))):
         pid = os.path.basename(d)
-        try:
-            L = json.load(open(os.path.join(d, "clean_findings.json")))
-        except Exception:
-            continue
-        for it in L:
-            k = "%s-%s" % (pid, it.get("j"))
+        items = []
+        for fn, pre in (("clean_findings.json", ""), ("r3_clean_findings.json", "r3-")):
+            try:
+                items += [(pre, it) for it in json.load(open(os.path.join(d, fn)))]
+            except Exception:
+                pass
+        for pre, it in items:
+            k = "%s-%s%s" % (pid, pre, it.get("j"))
             s_ = st.get(k, {})
             if s_.get("status") == "repaired":
                 n_rep += 1
